@@ -670,6 +670,9 @@ func (fr *Frame) lookup(x *ssa.Lookup, st *State) {
 	}
 	m := fx.materialize(fr.val(x.X), x.X.Type())
 	k := fx.materialize(fr.val(x.Index), mt.Key())
+	if fr.top {
+		fr.evBlk = x.Block()
+	}
 	fr.eventAsserts("lookup:"+typeKey(x.X.Type()), st, x.Pos())
 	fr.ghostAnchors("lookup:"+typeKey(x.X.Type()), st)
 	_, _, ks, vs := mapKeys(mt)
@@ -693,6 +696,9 @@ func (fr *Frame) mapUpdate(x *ssa.MapUpdate, st *State) {
 	k := fx.materialize(fr.val(x.Key), mt.Key())
 	v := fx.materialize(fr.val(x.Value), mt.Elem())
 	fx.oblige(st, "panic", fr.siteLabel("nil-map-store", x.Pos(), x), Not(Eq(m, Nil)), x.Pos())
+	if fr.top {
+		fr.evBlk = x.Block()
+	}
 	fr.eventAsserts("mapupdate:"+typeKey(x.Map.Type()), st, x.Pos(), map[string]SVal{
 		"mapkey":    {V: tv(k), Ty: mt.Key()},
 		"maptarget": {V: tv(m), Ty: x.Map.Type()},
